@@ -70,7 +70,7 @@ def check_arn_roundtrip(arn):
 def run_one(i, extra):
     seed = common.run_seed(i)
     rng = random.Random(seed)
-    mode = rng.choice(["api", "api", "api-restart", "child", "child", "backstop"])
+    mode = rng.choice(["api", "api", "api-restart", "child", "child", "backstop", "raw-child", "foreign-region"])
     typ = rng.choice(["STANDARD", "EXPRESS"])
     smname = gen_name(rng)
     exname = gen_name(rng)
@@ -86,6 +86,10 @@ def run_one(i, extra):
         findings.append({"property": PROP, "rule": rule, "witness": witness, "detail": detail, "seed": seed,
                          "names": [smname, exname], "mode": mode, "type": typ})
 
+    if mode == "foreign-region":
+        return foreign_region(rng, seed, smname, exname, typ, probes)
+    if mode == "raw-child":
+        return raw_child(rng, seed, smname, exname, typ, probes)
     if mode == "backstop":
         # an execution that only the periodic back stop ends (check_for_expired_branch_results derives the state
         # machine from the execution ARN): a join that can never complete - the recorded C06 finding, where a failure
@@ -200,6 +204,100 @@ def run_one(i, extra):
     return done(w, findings, probes, minted, [smname, exname, mode, typ])
 
 
+def _adder(findings, seed, names, mode, typ):
+    def add(rule, detail, witness=None):
+        findings.append({"property": PROP, "rule": rule, "witness": witness, "detail": detail, "seed": seed,
+                         "names": names, "mode": mode, "type": typ})
+    return add
+
+
+def raw_child(rng, seed, smname, exname, typ, probes):
+    """
+    A parent started the low-level way - the client publishes the start event with an AMQP message id of its own (any
+    text) - whose first state launches a child WITHOUT a Name: the child's name defaults to the id of the launching
+    event, i.e. to that client-chosen text, which never saw a validator. Either the launch is refused (the Task fails) or
+    every derivation for the child agrees.
+    """
+    findings = []
+    mid = smname                   # drawn from the alphabet with ':' '/' and the forbidden punctuation
+    script = {"work": [{"ok": {"op": "tag"}, "delay": 1.0}]}
+    w = World(seed, execution_ttl=600, script=script, functions=["work"])
+    add = _adder(findings, seed, [smname, exname], "raw-child", typ)
+    child_d = {"StartAt": "C", "States": {"C": {"Type": "Task", "Resource": F + "work", "End": True}}}
+    child_arn = w.create_machine("child", child_d, typ)
+    res = rng.choice(["arn:aws:states:local::states:startExecution", "arn:aws:states:local::states:startExecution.sync",
+                      "arn:aws:states:local::states:startExecution.sync:2"])
+    if typ == "EXPRESS" and res.endswith("startExecution.sync"):
+        res = "arn:aws:states:local::aws-sdk:sfn:startSyncExecution"
+    parent_d = {"StartAt": "L", "States": {"L": {"Type": "Task", "Resource": res, "Parameters": {
+        "StateMachineArn": child_arn, "Input": {"from": "parent"}}, "TimeoutSeconds": 30, "End": True}}}
+    parent_arn = w.create_machine("parent", parent_d, "STANDARD")
+    from lsfsim.peers import NativeChannel, Props
+    ch = NativeChannel(w.sim, "raw-starter")
+    body = json.dumps({"data": {}, "context": {"StateMachine": {"Id": parent_arn}, "Execution": {"Name": "p1"}}})
+    w.sim.broker.basic_publish(ch.rec, "", "asl_workflow_events", body.encode(),
+                               Props(content_type="application/json", message_id=mid, delivery_mode=2))
+    w.run_quiescent(limit=900)
+    probes["raw-child:" + res.split(":")[-1]] = 1
+    minted = set()
+    child_evs = [e for e in w.subscriber.events if ":execution:child" in (e["body"]["detail"].get("executionArn") or "") or
+                 e["body"]["detail"].get("stateMachineArn") == child_arn]
+    if child_evs:
+        probes["raw-child:launched-with-client-chosen-name"] = 1
+        child_ex = "arn:aws:states:local:0123456789:execution:child:" + mid
+        minted.add(child_ex)
+        link_checks(w, child_arn, child_ex, mid, typ, add, probes, child=True)
+        if not acceptable(mid):
+            probes["raw-child:unvalidated-name-launched"] = 1
+    pt = w.terminal_events().get("arn:aws:states:local:0123456789:execution:parent:p1")
+    if not pt:
+        add("parent-never-terminal", "parent started by a raw event with message id %r never ended" % mid)
+    for a in sorted(minted):
+        e = check_arn_roundtrip(a)
+        if e:
+            add("arn-roundtrip", e)
+    return done(w, findings, probes, minted, [smname, exname, "raw-child", typ])
+
+
+def foreign_region(rng, seed, smname, exname, typ, probes):
+    """A state machine registered under a region other than the front end's own configuration - a store shared with
+    or copied from another deployment: StartExecution on either front end mints the execution ARN from the STATE
+    MACHINE's ARN, and every derivation leads back to it."""
+    findings = []
+    transport = rng.choice(["asyncio", "blocking"])
+    region = rng.choice(["eu-west-1", "us-east-1", "other"])
+    if not acceptable(smname) or not acceptable(exname):
+        smname, exname = "sm-%d" % (seed % 97), "run-%d" % (seed % 89)
+    add = _adder(findings, seed, [smname, exname], "foreign-region", typ)
+    sm_arn = "arn:aws:states:%s:0123456789:stateMachine:%s" % (region, smname)
+    d = {"StartAt": "T", "States": {"T": {"Type": "Task", "Resource": F + "work", "End": True}}}
+    store = json.dumps({sm_arn: {"creationDate": EPOCH, "definition": d, "loggingConfiguration": {"level": "OFF"}, "name": smname,
+                                 "roleArn": World.ROLE, "stateMachineArn": sm_arn, "updateDate": EPOCH, "status": "ACTIVE",
+                                 "type": typ}})
+    script = {"work": [{"ok": {"op": "tag"}, "delay": 1.0}]}
+    w = World(seed, execution_ttl=600, script=script, functions=["work"], transport=transport, initial_store=store)
+    node = w.nodes[0]
+    rec = w.api_sync(node, "StartExecution", {"stateMachineArn": sm_arn, "name": exname, "input": "{}"})
+    probes["foreign-region:" + transport] = 1
+    minted = set([sm_arn])
+    if rec["status"] != 200:
+        add("foreign-region-start-refused", "StartExecution(%s) answered %s %s" % (sm_arn, rec["status"], (rec["body"] or "")[:120]))
+        return done(w, findings, probes, minted, [smname, exname, "foreign-region", typ])
+    ex_arn = rec["json"]["executionArn"]
+    want = "arn:aws:states:%s:0123456789:execution:%s:%s" % (region, smname, exname)
+    if ex_arn != want:
+        add("arn-composition", "executionArn %r for a state machine in region %r, expected %r" % (ex_arn, region, want),
+            witness=transport)
+    minted.add(ex_arn)
+    w.run_quiescent(limit=900)
+    link_checks(w, sm_arn, want, exname, typ, add, probes)
+    for a in sorted(minted):
+        e = check_arn_roundtrip(a)
+        if e:
+            add("arn-roundtrip", e)
+    return done(w, findings, probes, minted, [smname, exname, "foreign-region", typ])
+
+
 def link_checks(w, sm_arn, ex_arn, exname, typ, add, probes, restarted=False, child=False):
     evs = [e for e in w.subscriber.events if e["body"]["detail"].get("executionArn") == ex_arn]
     others = [e for e in w.subscriber.events if e["body"]["detail"].get("executionArn") != ex_arn and
@@ -267,7 +365,9 @@ def main(argv):
              "the rejected punctuation, lengths 1-81, pushed through CreateStateMachine/StartExecution (STANDARD and "
              "EXPRESS), with a crash+restart of the engine while the execution waits for its task (record re-creation), "
              "and through the Name parameter of child launches (startExecution, .sync, .sync:2, sfn:startSyncExecution) "
-             "which bypasses the API validators; accepted <=> 1..80 characters without the forbidden ones; for every "
+             "which bypasses the API validators, through a parent started by a raw event whose client-chosen message id becomes "
+             "the default name of the child it launches, and for state machines stored under a foreign region on both front "
+             "ends; accepted <=> 1..80 characters without the forbidden ones; for every "
              "accepted or launched name the StartExecution response, every notification (subject, stateMachineArn, "
              "name), and the stored / re-created record agree on the state machine ARN and execution name, and every "
              "minted ARN, every Task Resource ARN used (local, region-less, other region, with account) and one ARN per run from the "
